@@ -342,6 +342,12 @@ Record wf_board (b : board) : Prop := {
 Definition no_object (b : board) (c : Z) : Prop :=
   forall a, 0 <= a < RELAY_MAX -> r_gpio (relay_at b a) <> 255 -> r_channel (relay_at b a) <> c.
 
+(* supla_esp_on_register_result, default branch: buff = os_malloc(REG_UNKNOWN_ALLOC);
+   ets_snprintf(buff, REG_UNKNOWN_BOUND, "Unknown code %i", result_code) writes min(bound, needed) bytes, where `needed`
+   is the length of the formatted text + 1 for whatever 32-bit result_code the server sends *)
+Definition snprintf_written (bound needed : Z) : Z := Z.min bound needed.
+Definition reg_unknown_written (needed : Z) : Z := snprintf_written REG_UNKNOWN_BOUND needed.
+
 (* ================= wire interface ================= *)
 (* events: 0 CFG devcfg fwupd nrel (gpio ch flags chflags)* nrs (up down)* nin (gpio type flags relay_gpio channel atcap)*
            1 GATE | 2 SRV call rr : payload | 3 ADV us | 4 SKEW us (the clock runs on, no timer fires)
